@@ -606,4 +606,226 @@ theorem receivedNextBunch_inv (c : Conn) (b : Bunch) (h : RecvInv c)
       rw [hx1]; simp only [List.nil_append]
       exact cinv_single _ _ _ _ _ b hci rfl hnx
 
+theorem setChan_recvinv (c : Conn) (ch : Nat) (x x' : Channel) (h : RecvInv c) (hx : c.getChan ch = some x)
+    (hinv : CInv ch (recvPart x') (relLog ch c.log)) : RecvInv (c.setChan ch x') :=
+  ((Track.start (chanRecv_of_getChan hx)).setChan x').finish h (by simpa using hinv)
+
+theorem dispatchWaiting_inv (fuel : Nat) : ∀ (c : Conn) (ch : Nat), RecvInv c → RecvInv (Conn.dispatchWaiting fuel c ch) := by
+  induction fuel with
+  | zero => intro c ch h; exact h
+  | succ f ih =>
+    intro c ch h
+    unfold Conn.dispatchWaiting
+    split
+    · exact h
+    · rename_i x hx
+      have hci := h.chans ch _ (chanRecv_of_getChan hx)
+      split
+      · exact h
+      · rename_i b rest hq
+        split
+        · exact h
+        · rename_i hseq
+          dsimp only
+          have hb := hci.queue b (by show b ∈ x.inRec; rw [hq]; exact List.mem_cons_self)
+          have h1 : RecvInv (c.setChan ch { x with inRec := rest }) := by
+            refine setChan_recvinv c ch x _ h hx ⟨hci.dl, hci.live, hci.bound, hci.homo, hci.part, ?_⟩
+            intro q hqm
+            exact hci.queue q (by show q ∈ x.inRec; rw [hq]; exact List.mem_cons_of_mem _ hqm)
+          refine ih _ _ (receivedNextBunch_inv _ b h1 ?_)
+          intro x' hx' _
+          rw [hb.1, getChan_setChan_self] at hx'
+          cases hx'
+          simp only
+          simpa using hseq
+
+theorem enqueue_mem' (b : Bunch) : ∀ (q q' : List Bunch), enqueueIncoming b q = some q' → ∀ y ∈ q', y = b ∨ y ∈ q := by
+  intro q
+  induction q with
+  | nil => intro q' h y hy; simp [enqueueIncoming] at h; subst h; simp at hy; exact Or.inl hy
+  | cons a rest ih =>
+    intro q' h y hy
+    unfold enqueueIncoming at h
+    split at h
+    · simp at h
+    · split at h
+      · simp at h; subst h
+        rcases List.mem_cons.mp hy with rfl | hy
+        · exact Or.inl rfl
+        · exact Or.inr hy
+      · cases he : enqueueIncoming b rest with
+        | none => simp [he] at h
+        | some q'' =>
+          simp [he] at h; subst h
+          rcases List.mem_cons.mp hy with rfl | hy
+          · exact Or.inr List.mem_cons_self
+          · rcases ih q'' he y hy with h1 | h1
+            · exact Or.inl h1
+            · exact Or.inr (List.mem_cons_of_mem _ h1)
+
+theorem processBunch_inv (c : Conn) (x : Channel) (b : Bunch) (h : RecvInv c) (hx : c.getChan b.chIndex = some x) : RecvInv (c.processBunch x b).1 := by
+  have hci := h.chans b.chIndex _ (chanRecv_of_getChan hx)
+  unfold Conn.processBunch
+  split
+  · exact h.of_rsame (emit_rsame _ _ rfl)
+  · rename_i hold
+    split
+    · rename_i hahead
+      split
+      · rename_i q hq
+        refine setChan_recvinv c _ x _ h hx ⟨hci.dl, hci.live, hci.bound, hci.homo, hci.part, ?_⟩
+        intro y hy
+        rcases enqueue_mem' b x.inRec q hq y hy with rfl | hy
+        · simp only [Bool.and_eq_true] at hahead; exact ⟨rfl, hahead.1⟩
+        · exact hci.queue y hy
+      · exact h.of_rsame (emit_rsame _ _ rfl)
+    · rename_i hnext
+      refine receivedNextBunch_inv c b h ?_
+      intro x' hx' hrel
+      rw [hx] at hx'; cases hx'
+      simp only [hrel, Bool.true_and, decide_eq_true_eq, bne_iff_ne, ne_eq, Decidable.not_not] at hold hnext
+      exact hnext
+
+theorem createChan_inv (c : Conn) (ch : Nat) (h : RecvInv c) (hn : c.getChan ch = none) : RecvInv (c.createChan ch) := by
+  have habs := h.absent ch (by unfold chanRecv; rw [hn]; rfl)
+  unfold Conn.createChan
+  dsimp only
+  -- the steps before the table insertion leave every channel and the deliveries alone
+  have hpre : RSame c (if (c.emit (.alloc .chan)).chans.length < (c.emit (.alloc .chan)).openCap then c.emit (.alloc .chan)
+      else if ((c.emit (.alloc .chan)).openCap == 0) = true then { (c.emit (.alloc .chan)).emit (.alloc .open_) with openCap := 32 }
+      else { (c.emit (.alloc .chan)).emit (.realloc .open_) with openCap := (c.emit (.alloc .chan)).openCap * 2 }) := by
+    split
+    · exact emit_rsame _ _ rfl
+    · split
+      · exact ((emit_rsame c (.alloc .chan) rfl).trans (emit_rsame _ (.alloc .open_) rfl)).trans (rsame_of_eq _ _ rfl rfl)
+      · exact ((emit_rsame c (.alloc .chan) rfl).trans (emit_rsame _ (.realloc .open_) rfl)).trans (rsame_of_eq _ _ rfl rfl)
+  generalize (if (c.emit (.alloc .chan)).chans.length < (c.emit (.alloc .chan)).openCap then c.emit (.alloc .chan)
+      else if ((c.emit (.alloc .chan)).openCap == 0) = true then { (c.emit (.alloc .chan)).emit (.alloc .open_) with openCap := 32 }
+      else { (c.emit (.alloc .chan)).emit (.realloc .open_) with openCap := (c.emit (.alloc .chan)).openCap * 2 }) = c1 at hpre ⊢
+  refine h.update ch ((Upd.of_rsame hpre).trans (setChan_upd c1 ch _)) ?_ ?_
+  · intro t ht
+    rw [chanRecv_setChan] at ht; cases ht
+    rw [relLog_setChan, hpre.log ch, habs]
+    exact ⟨Below.nil _, by intro last hl; simp [recvPart] at hl, by intro f hf; simp [recvPart] at hf, by intro last hl; simp [recvPart] at hl,
+      by intro f hf; simp [recvPart] at hf, by intro q hq; simp [recvPart] at hq⟩
+  · intro hnone; rw [chanRecv_setChan] at hnone; cases hnone
+
+theorem getOrCreateChan_inv (c : Conn) (b : Bunch) (inc : Bool) (h : RecvInv c) :
+    RecvInv (c.getOrCreateChan b inc).1 ∧ ∀ x, (c.getOrCreateChan b inc).2 = some x → (c.getOrCreateChan b inc).1.getChan b.chIndex = some x := by
+  unfold Conn.getOrCreateChan
+  split
+  · rename_i x hx
+    exact ⟨h, fun y hy => by simp at hy; rw [← hy]; exact hx⟩
+  · rename_i hn
+    split
+    · exact ⟨createChan_inv c b.chIndex h hn, fun y hy => hy⟩
+    · exact ⟨h, fun y hy => by simp at hy⟩
+
+theorem absSeq_chIndex (c : Conn) (x : Channel) (b : Bunch) : (absSeq c x b).chIndex = b.chIndex := by
+  unfold absSeq; split
+  · rfl
+  · split <;> rfl
+
+theorem receivedRawBunch_inv (c : Conn) (bits : Bits) (h : RecvInv c) : RecvInv (c.receivedRawBunch bits).1 := by
+  unfold Conn.receivedRawBunch
+  dsimp only
+  have h0 : RecvInv (c.emit (.alloc .node)) := h.of_rsame (emit_rsame _ _ rfl)
+  split
+  · exact h0.of_rsame ((markClose_rsame _ _).trans (emit_rsame _ _ rfl))
+  · split
+    · exact h0.of_rsame ((markClose_rsame _ _).trans (emit_rsame _ _ rfl))
+    · rename_i b rest hdec hch
+      obtain ⟨g1, g2⟩ := getOrCreateChan_inv (c.emit (.alloc .node)) { b with packetId := (c.emit (.alloc .node)).inPacketId } true h0
+      split
+      · exact g1.of_rsame (emit_rsame _ _ rfl)
+      · rename_i x hx
+        have hget := g2 x hx
+        refine dispatchWaiting_inv _ _ _ (processBunch_inv _ x _ g1 ?_)
+        rw [absSeq_chIndex]; exact hget
+
+theorem bunchLoop_inv (fuel : Nat) : ∀ (c : Conn) (bits : Bits) (skip : Bool), RecvInv c → RecvInv (Conn.bunchLoop fuel c bits skip).1 := by
+  induction fuel with
+  | zero => intro c bits skip h; exact h
+  | succ f ih =>
+    intro c bits skip h
+    unfold Conn.bunchLoop
+    split
+    · exact h
+    · exact ih _ _ _ (receivedRawBunch_inv c bits h)
+
+/-- **`ReceivedPacket` on any bit string keeps the order invariant** -/
+theorem receivedPacket_inv (e : Env) (c : Conn) (bits : Bits) (h : RecvInv c) : RecvInv (c.receivedPacket e bits).1 := by
+  unfold Conn.receivedPacket
+  split
+  · exact h.of_rsame (markClose_rsame _ _)
+  · rename_i hd rest hdec
+    dsimp only
+    split
+    · exact h
+    · have h1 : RecvInv ({ c with inPacketId := c.inPacketId + c.notify.deltaSeq hd } : Conn) := h.of_rsame (rsame_of_eq _ _ rfl rfl)
+      have h2 := h1.of_rsame (notifyUpdate_rsame e _ hd)
+      have h3 := bunchLoop_inv (rest.length + 1) _ rest false h2
+      generalize Conn.bunchLoop (rest.length + 1) (({ c with inPacketId := c.inPacketId + c.notify.deltaSeq hd } : Conn).notifyUpdate e hd) rest false = r at h3 ⊢
+      obtain ⟨c3, rest', skip⟩ := r
+      exact h3.of_rsame (rsame_of_eq _ _ rfl rfl)
+
+/-- a connection without channels and without deliveries -/
+theorem empty_recvinv (c : Conn) (hc : c.chans = []) (hl : ∀ ch, relLog ch c.log = []) : RecvInv c := by
+  refine ⟨?_, fun ch _ => hl ch⟩
+  intro ch t ht
+  unfold chanRecv Conn.getChan at ht
+  rw [hc] at ht; simp at ht
+
+/-- the conclusion the application cares about: per channel, strictly increasing sequence numbers -/
+theorem RecvInv.increasing {c : Conn} (h : RecvInv c) (ch : Nat) : (relLog ch c.log).Pairwise (· < ·) := by
+  cases ht : chanRecv c ch with
+  | none => rw [h.absent ch ht]; exact List.Pairwise.nil
+  | some t => exact (h.chans ch t ht).dl.1
+
+/-! ### the send API leaves the receive side alone -/
+
+theorem flush_rsame (e : Env) (c : Conn) : RSame c (c.flush e) := RSame.of_chans (flush_chans e c) (flush_adds e c) isOut_not_recv
+
+theorem addOutRec_rsame (c : Conn) (ch : Nat) (pid : Int) (bits : Bits) : RSame c (c.addOutRec ch pid bits) := by
+  unfold Conn.addOutRec
+  split
+  · exact RSame.refl _
+  · rename_i x hx
+    exact setChan_rsame c ch x _ hx rfl
+
+theorem sendCommit_inv (e : Env) (c : Conn) (b : Bunch) (h0 : Bits) (h : RecvInv c) : RecvInv (c.sendCommit e b h0).1 := by
+  unfold Conn.sendCommit
+  dsimp only
+  have h1 : RecvInv ((c.getOrCreateChan b false).1.noteClose b) := (getOrCreateChan_inv c b false h).1.of_rsame (noteClose_rsame _ b)
+  generalize (c.getOrCreateChan b false).1.noteClose b = c1 at h1 ⊢
+  split
+  · exact h1
+  · rename_i x hx
+    generalize (if b.bReliable = true then x.outReliable + 1 else 0 : Int) = seq
+    generalize (if b.bReliable = true then (encodeBunchHeader { b with chSeq := seq }).getD h0 else h0) = hdr
+    have h2 : RecvInv (if b.bReliable = true then c1.setChan b.chIndex { x with outReliable := seq } else c1) := by
+      split
+      · exact h1.of_rsame (setChan_rsame c1 _ x _ hx rfl)
+      · exact h1
+    generalize (if b.bReliable = true then c1.setChan b.chIndex { x with outReliable := seq } else c1) = c2 at h2 ⊢
+    have h3 : RecvInv (c2.prepareWrite e (hdr.length + b.data.length)) :=
+      h2.of_rsame (RSame.of_chans (prepareWrite_chans e c2 _) (prepareWrite_adds e c2 _) isOut_not_recv)
+    have h4 : RecvInv ((c2.prepareWrite e (hdr.length + b.data.length)).writeInternal e (hdr ++ b.data)).1 :=
+      h3.of_rsame (RSame.of_chans (writeInternal_chans e _ _) (writeInternal_adds e _ _) isOut_not_recv)
+    split
+    · exact h4.of_rsame ((emit_rsame _ (.alloc .node) rfl).trans (addOutRec_rsame _ _ _ _))
+    · exact h4
+
+theorem sendBunch_inv (e : Env) (c : Conn) (b : Bunch) (h : RecvInv c) : RecvInv (c.sendBunch e b).1 := by
+  have hraw : RecvInv (c.sendRaw e b).1 := by
+    unfold Conn.sendRaw
+    split
+    · exact h
+    · exact sendCommit_inv e c b _ h
+  unfold Conn.sendBunch
+  generalize c.sendRaw e b = r at hraw ⊢
+  obtain ⟨c', rr⟩ := r
+  simp only at hraw ⊢
+  split <;> exact hraw
+
 end Utcp
